@@ -281,6 +281,9 @@ func (t *tx) Commit() error {
 	t.db.Commits++
 	t.done = true
 	t.db.wlock.Unlock()
+	// bbolt runs the commit handlers after releasing the writer lock: another
+	// writer may run in between
+	verifrt.Yield()
 	if t.db.AfterUnlock != nil {
 		t.db.AfterUnlock()
 	}
